@@ -1,13 +1,20 @@
 #!/bin/bash
-# try_seed.sh <patch.diff> [props...] : applies a seeded change to /repo, runs the checks, undoes it.
+# try_seed.sh <patch.diff> : applies a seeded change to a scratch copy of /repo (outside /repo and /verif), runs every
+# check on it in one process, removes the copy. (tools/seed_sweep.py does the same on /repo itself, as the brief describes.)
 cd /verif || exit 2
-patch=$1; shift
-props=${@:-$(python3 -c "import json;print(' '.join(c['property_id'] for c in json.load(open('MANIFEST.json'))['checks']))")}
-git -C /repo apply "$patch" 2>/dev/null || git -C /repo apply --3way "$patch" 2>/dev/null || { echo "patch does not apply to /repo"; git -C /repo reset -q --hard HEAD; exit 3; }
-mkdir -p /tmp/seed_ev_$$/evidence; cp known_findings.json /tmp/seed_ev_$$/; hit=""
-out=$(bin/stfscheck -p all -tier quick -verif /tmp/seed_ev_$$ 2>&1)
+patch=$(readlink -f "$1")
+tmp=$(mktemp -d /tmp/seedtry-XXXXXX)
+mkdir -p $tmp/repo $tmp/verif/evidence; cp known_findings.json $tmp/verif/
+(cd /repo && tar --exclude=.git -cf - .) | (cd $tmp/repo && tar -xf -)
+if ! (cd $tmp/repo && git apply "$patch" 2>/dev/null); then
+  # fall back to a 3-way apply inside a throw-away worktree of /repo
+  rm -rf $tmp/repo; git -C /repo worktree add -q $tmp/repo HEAD 2>/dev/null
+  (cd $tmp/repo && git apply --3way "$patch" 2>/dev/null) || { echo "patch does not apply"; git -C /repo worktree remove --force $tmp/repo 2>/dev/null; rm -rf $tmp; exit 3; }
+  wt=1
+fi
+out=$(bin/stfscheck -p all -tier quick -repo $tmp/repo -verif $tmp/verif 2>&1)
 echo "$out" | grep -E "^  (VIOLATED|UNDECIDED)|^BROKEN|^UNRESOLVED" | cut -c1-330
 hit=$(echo "$out" | grep -E "^result C[0-9]+:.*exit=[12]" | sed -E 's/^result (C[0-9]+):.*/\1/' | tr '\n' ' ')
-git -C /repo reset -q --hard HEAD ; git -C /repo clean -qfd
-rm -rf /tmp/seed_ev_$$
+[ -n "$wt" ] && git -C /repo worktree remove --force $tmp/repo 2>/dev/null
+rm -rf $tmp
 echo "FLAGGED BY:${hit:- none}"
